@@ -151,7 +151,7 @@ func c20Bubble(tp *core.Tape, e *core.Env) (hist []string) {
 		t := &c20Target{addr: fmt.Sprintf("p%d:80", i+1)}
 		nf := tp.Weighted("failures", 4, 3, 2, 1, 1, 1)
 		for k := 0; k < nf; k++ {
-			t.pattern = append(t.pattern, core.Pick(tp, "fail_kind", "connect", "status", "break", "timeout"))
+			t.pattern = append(t.pattern, core.Pick(tp, "fail_kind", "connect", "status", "break", "timeout", "reset"))
 		}
 		ns := 1 + tp.Choose("samples", 6)
 		for k := 0; k < ns; k++ {
